@@ -147,6 +147,12 @@ def main():
             thorough['table_roundtrip_weakened_preconditions_refused'] = pychars_table.necessity() + pychars_table.necessity_fimi()
             from contracts import formats_chars_csv as pychars_csv          # the same for the csv format in the excel dialect (DESIGN 11.18)
             thorough['csv_roundtrip_weakened_preconditions_refused'] = pychars_csv.necessity()
+            # BIN-TEXT theory (contracts/bitsets_bin.py, DESIGN 11.22): CPython's bin / format / slicing / str.count / enumerate against the copy of
+            # the definitions of lemmas/BitsBin.lean and against every schema (all n < 2^16, random n up to 2^300); against the Lean definitions (#eval)
+            from pyvc import bintext as pybin
+            thorough['bin_text_instances_checked_against_cpython'] = pybin.selftest()
+            if os.path.isdir(pybin.LEAN_DIR):
+                thorough['bin_text_lean_definitions_evaluated_against_cpython'] = pybin.selftest_lean()
         except AssertionError as e:
             selfcheck_problems.append('theory axiom refuted by CPython: %r' % (e,))
         os.environ.setdefault('PYVC_Z3_TIMEOUT_MS', '5000')
